@@ -226,11 +226,29 @@ Qed.
 Definition Sok (A : sizer) : Prop := forall cx p s, okp p (A cx p s).
 Definition Pok1 (P : parser) : Prop := forall cx p s, okp p (P cx p s).
 
-Lemma okp_actualsize c : Pok c -> (forall lc c' incl, c = CPrefixed lc c' incl -> Pok lc) -> Sok (actualsize_with parse c).
+Lemma okp_prefixed_actualsize lc incl : Pok lc -> forall cx p s, okp p (prefixed_actualsize parse lc incl cx p s).
 Proof.
-  intros Hc Hl cx p s. unfold actualsize_with. destruct c; try apply sizeof_path_extends.
-  apply okp_bind; [apply (Hl c1 c2 incl eq_refl)|intros [lv s1]]. apply okp_bind; [destruct lv; exact I|intros n].
+  intros Hl cx p s. unfold prefixed_actualsize.
+  apply okp_bind; [apply Hl|intros [lv s1]]. apply okp_bind; [destruct lv; exact I|intros n].
   apply okp_bind; [destruct incl; [apply okp_bind; [apply sizeof_path_extends|intros; exact I]|exact I]|intros; exact I].
+Qed.
+
+(* the length field of a Prefixed reached through names and adapters (what Renamed._actualsize / Adapter._actualsize defer to) *)
+Fixpoint LFok (Q : con -> Prop) (c : con) : Prop :=
+  match c with
+  | CPrefixed lc _ _ => Q lc
+  | CRenamed _ c' | CStringEncoded c' _ | CEnum c' _ | CFlagsEnum c' _ | CMapping c' _ | CHex c' | CHexDump c'
+  | CExprValidator c' _ | COneOf c' _ | CNoneOf c' _ | CExprAdapter c' _ _ => LFok Q c'
+  | _ => True
+  end.
+Definition lenfield_ok := LFok.
+
+Lemma okp_actualsize : forall c, LFok Pok c -> Sok (actualsize_with parse c).
+Proof.
+  induction c; intros H cx p s; cbn [actualsize_with]; try apply sizeof_path_extends; cbn [LFok] in H;
+    try (apply IHc; exact H).
+  - (* Renamed *) eapply okp_weaken; [apply prefix_snoc|apply IHc; exact H].
+  - (* Prefixed *) apply okp_prefixed_actualsize, H.
 Qed.
 
 Lemma okp_lazy_step Pc Ac nm p st : Pok1 Pc -> Sok Ac -> okp p (lazy_step Pc Ac nm p st).
@@ -263,7 +281,7 @@ Proof.
 Qed.
 
 (* members with their own sub-constructs well behaved *)
-Definition Pok2 (c : con) : Prop := Pok c /\ (forall lc c' incl, c = CPrefixed lc c' incl -> Pok lc).
+Definition Pok2 (c : con) : Prop := Pok c /\ lenfield_ok Pok c.
 
 Lemma okp_lazy_scan_struct cs : Forall Pok2 cs -> forall p st, okp p (lazy_scan_struct parse cs p st).
 Proof.
@@ -299,7 +317,10 @@ Ltac pkm := repeat first [ pk_parse | progress pk
 
 Theorem parse_path_extends2 : forall c, Pok2 c.
 Proof.
-  induction c using con_ind2; (split; [|intros lc0 c0 incl0 E0; try discriminate E0; injection E0 as -> -> ->; match goal with H : Pok2 lc0 |- _ => exact (proj1 H) end]).
+  induction c using con_ind2; (split; [|unfold lenfield_ok; cbn [LFok];
+    first [ exact I
+          | match goal with H : Pok2 ?l |- Pok ?l => exact (proj1 H) end
+          | match goal with H : Pok2 ?c' |- LFok Pok ?c' => exact (proj2 H) end ]]).
   all: try (match goal with H : Forall (fun c : con => Pok2 c) ?cs |- _ =>
               assert (HF2 := H); assert (HF : Forall Pok cs) by (eapply Forall_impl; [|exact H]; intros ? [? ?]; assumption); clear H; rename HF into H end).
   all: try (match goal with H : Forall (fun vc => Pok2 (snd vc)) ?cs |- _ =>
@@ -343,7 +364,7 @@ Proof.
       (destruct (iread_all s); apply okp_bind; [unfold xor_data; repeat match goal with |- okp _ (match ?x with _ => _ end) => destruct x | |- okp _ (if ?x then _ else _) => destruct x end; try exact I; apply okp_raise|intros d']; apply okp_bind; [apply IHc|intros [v s2]; exact I]) ].
   all: try solve [ (* ProcessRotl *) apply okp_bind; [pk|intros a]; apply okp_bind; [pk|intros g]; destruct (g <? 1)%Z; [apply okp_raise|]; destruct (alloc_bound <? g)%Z; [exact I|]; destruct (iread_all s); match goal with |- context [rotate_left ?x ?y ?z] => destruct (rotate_left x y z) end; [|apply okp_raise]; apply okp_bind; [apply IHc|intros [v s2]; exact I] ].
   all: try solve [ (* Checksum *) apply okp_bind; [apply IHc|intros [h1 s1]]; apply okp_bind; [pk|intros d]; destruct d; try exact I; destruct (val_eqb _ _); [exact I|apply okp_raise] ].
-  all: try solve [ (* Lazy *) pose proof (okp_actualsize c IHc IHl cx p s) as Ha; destruct (actualsize_with parse c cx p s) as [n|e q];
+  all: try solve [ (* Lazy *) pose proof (okp_actualsize c IHl cx p s) as Ha; destruct (actualsize_with parse c cx p s) as [n|e q];
       [ apply okp_bind; [apply okp_iseek|intros [r s1]]; apply okp_bind; [apply okp_lazy_force; exact IHc|intros [v s2]; exact I]
       | destruct e; try exact Ha; apply okp_bind; [apply okp_iseek|intros [r s0]; apply IHc] ] ].
   all: try solve [ (* LazyStruct *) apply okp_bind; [apply okp_lazy_scan_struct; exact HF2|intros [[[[[i off] cx1] s'] offs] cache]];
